@@ -444,7 +444,8 @@ PROPS = {
         "props_module": "HdModel.Props.C01",
         "class_prefix": ["C01/"],
         "theorems": ["Hd.E2E.C01_no_crosstalk", "Hd.E2E.C01_server_sees_what_was_sent", "Hd.E2E.C01_response_identity",
-                     "Hd.E2E.inv_step", "Hd.E2E.inv_run", "Hd.E2E.C01_busy_handout_crosstalks"],
+                     "Hd.E2E.C01_nothing_lost", "Hd.E2E.C01_quiescent_all_delivered", "Hd.E2E.C01_located_can_move",
+                     "Hd.E2E.inv_step", "Hd.E2E.inv_run", "Hd.E2E.noLoss_step", "Hd.E2E.C01_busy_handout_crosstalks"],
         "streams": [
             {"name": "e2e", "quick": 1500, "thorough": 100000, "sep": ";", "batch": 2000,
              "nontrivial": e2e_nontrivial, "distribution": e2e_dist},
